@@ -30,6 +30,20 @@ CLAIMS = {
    note="Assumes the payload digest is injective (named hypothesis), circuit breakers closed, sequential histories. Trusted: "
         "Lean kernel, hand model validated by correspondence, harness.",
    design="§3 C04"),
+ "C11": dict(
+   engine="store+tiered",
+   technique="Lean 4 proof (index invariant by induction over store ops; filter compile correctness by mutual structural induction over all filter trees) + differential correspondence",
+   text="Theorems C11_orderedKey_strictMono (IEEE order vs the BTreeMap key, all non-NaN bit patterns), C11_compile_correct "
+        "and C11_ids_exact (for EVERY filter tree - exact/in/range with any bound/and/or/not, any depth, empty forms - the "
+        "inverted-index evaluation selects exactly the live documents whose metadata satisfies metadata_filter::matches), "
+        "C11_reachable (the store invariant holds after any sequence of inserts, overwrites, metadata updates, deletes, "
+        "batch deletes, tombstone compactions), C11_filtered_delete_exact (engine-level filtered delete removes exactly the "
+        "documents whose canonical metadata matches). Tie: real ids_for_metadata_filter vs real scan(matches) vs the model on "
+        "~18k generated filters per quick run over stores with the property's value classes; tiered histories with "
+        "batch_delete_by_metadata_filter. One genuine defect found and repaired (fix: a9c821f).",
+   note="str::parse::<f64> is an oracle input (observed bits); IEEE comparison modelled on bit patterns; bitmaps/maps modelled as "
+        "sets. Trusted: Lean kernel, hand model validated by correspondence, harness.",
+   design="§3 C11"),
 }
 
 NOT_APPLICABLE = {
